@@ -134,6 +134,32 @@ def patch_local():
     U.shutil = _Shutil()
 
 
+def drain():
+    """wait until zarr's background event loop has finished every task that is still in flight (after a
+    failure the siblings of the failing write in the same asyncio.gather keep running)"""
+    import asyncio
+
+    from zarr.core.sync import sync
+
+    async def _drain():
+        cur = asyncio.current_task()
+        for _ in range(5):
+            pend = [t for t in asyncio.all_tasks() if t is not cur and not t.done()]
+            if not pend:
+                return
+            await asyncio.gather(*pend, return_exceptions=True)
+
+    try:
+        sync(_drain())
+    except Exception:  # noqa: BLE001
+        pass
+
+
+def foreign_same(pre: dict, post: dict) -> bool:
+    """foreign content (members and root attributes) unchanged"""
+    return pre == post
+
+
 # --------------------------------------------------------------------------- stores under test
 KINDS = ("mem", "local", "path", "str")
 
@@ -475,16 +501,19 @@ def geff_part(snap: dict[str, bytes] | None) -> dict:
 
 
 def foreign_part(snap: dict[str, bytes] | None) -> dict:
-    """everything that is not geff-owned: foreign members byte for byte, foreign root attributes"""
-    out = {}
+    """everything that is not geff-owned: foreign members byte for byte, and the foreign root attributes
+    (a missing root attribute document counts as no attributes; the root group's own format documents
+    are not foreign content)"""
+    out = {"#rootattrs": "{}"}
     for k, v in (snap or {}).items():
-        if is_geff_key(k):
+        if is_geff_key(k) or k == ".zgroup":
             continue
         if k in (".zattrs", "zarr.json"):
             b = abstract_blob(k, v)
-            out[k] = b[2] if b[0] == "root" else b[1]
-        elif k == ".zgroup":
-            out[k] = h(v)
+            if b[0] == "root":
+                out["#rootattrs"] = json.dumps(json.loads(b[2])["attrs"], sort_keys=True)
+            else:
+                out[k] = b[1]
         else:
             out[k] = h(v)
     return out
@@ -553,17 +582,47 @@ def docs_for(fmt: int) -> dict:
     return d
 
 
-def model_graph(spec: dict, fmt: int, entry: str = "write_arrays", valid: bool = True, flags: dict | None = None):
+def reference_write(spec: dict, fmt: int, entry: str, workdir: str | None = None):
+    """fault-free write of `spec` through `entry` into an empty location; (snapshot, key order, reading)
+    or None when it fails.  Converters need a directory (`workdir`)."""
+    global REC
+    saved = REC
+    if entry in CONVERTERS:
+        sub = tempfile.mkdtemp(prefix="ref-", dir=workdir)
+        t = Target("path", sub, name="ref.geff")
+    else:
+        t = Target("mem")
+    try:
+        with quiet(t):
+            try:
+                do_any(entry, t.handle(), spec, fmt, False, False, workdir)
+            except Exception:  # noqa: BLE001
+                return None
+            drain()
+            snap = t.snapshot()
+            order = t.keys_in_order()
+            if entry in CONVERTERS:
+                # directory order is not insertion order: rebuild the writing order from a recorded run
+                order = sorted(snap)
+            return snap, order, canon_read(t.reader())
+    finally:
+        REC = saved
+
+
+def do_any(entry: str, store, spec: dict, fmt: int, overwrite: bool, validation: bool = True, workdir: str | None = None):
+    if entry in CONVERTERS:
+        return do_convert(entry, store, spec["variant"], fmt, overwrite, workdir)
+    return do_write(entry, store, spec, fmt, overwrite, validation)
+
+
+def model_graph(spec: dict, fmt: int, entry: str = "write_arrays", valid: bool = True, flags: dict | None = None,
+                workdir: str | None = None):
     """the model's `G` for `spec`: documents read off a fault-free reference write (validation off)
-    into an empty MemoryStore through the same entry point.  None when that write fails."""
-    t = Target("mem")
-    with quiet(t):
-        try:
-            do_write(entry, t.mem, spec, fmt, overwrite=False, validation=False)
-        except Exception:  # noqa: BLE001
-            return None
-    snap = t.snapshot()
-    order = t.keys_in_order()
+    into an empty location through the same entry point.  None when that write fails."""
+    ref = reference_write(spec, fmt, entry, workdir)
+    if ref is None:
+        return None
+    snap, order, _ = ref
     amk = ".zarray" if fmt == 2 else "zarr.json"
     arrays: dict[str, dict] = {}
     for k in order:
@@ -635,3 +694,87 @@ def replay_ops(state: list, ops: list, k: int | None = None):
         elif kind == "clear":
             st = []
     return st
+
+
+# --------------------------------------------------------------------------- tiny converter inputs
+def make_ctc(root: str, variant: int) -> str:
+    """a tiny synthetic Cell-Tracking-Challenge dataset (label frames + man_track.txt); `variant`
+    changes the number of cells / frames so that A, B, C differ in size"""
+    import tifffile
+
+    d = os.path.join(root, f"ctc{variant}", "TRA")
+    os.makedirs(d, exist_ok=True)
+    T = 2 + variant % 2
+    frames = [np.zeros((6, 6), dtype="uint16") for _ in range(T)]
+    # track 1 lives in every frame; track 2 in every frame; track 3 (variant>=1) is a daughter of 1 in the last frame
+    for t in range(T):
+        frames[t][1, 1 + (t % 2)] = 1
+        frames[t][4, 4] = 2
+    rows = [[1, 0, T - 1, 0], [2, 0, T - 1, 0]]
+    if variant >= 1:
+        frames[T - 1][1, 1 + ((T - 1) % 2)] = 0
+        frames[T - 1][0, 0] = 3
+        frames[T - 1][2, 3] = 4
+        rows = [[1, 0, T - 2, 0], [2, 0, T - 1, 0], [3, T - 1, T - 1, 1], [4, T - 1, T - 1, 1]]
+    for t, a in enumerate(frames):
+        tifffile.imwrite(os.path.join(d, f"man_track{t:03d}.tif"), a)
+    with open(os.path.join(d, "man_track.txt"), "w") as fh:
+        fh.write("".join(" ".join(map(str, r)) + "\n" for r in rows))
+    return d
+
+
+def make_trackmate(root: str, variant: int) -> str:
+    """a tiny synthetic TrackMate XML: `variant`+2 spots in a chain (one track), plus one extra feature
+    when variant is odd so that the property sets differ"""
+    n = variant + 2
+    extra = variant % 2 == 1
+    sf = [("QUALITY", "false", "QUALITY"), ("POSITION_X", "false", "POSITION"), ("POSITION_Y", "false", "POSITION"),
+          ("POSITION_Z", "false", "POSITION"), ("POSITION_T", "false", "TIME"), ("FRAME", "true", "NONE"),
+          ("RADIUS", "false", "LENGTH")]
+    if extra:
+        sf.append(("MEAN_INTENSITY", "false", "INTENSITY"))
+    out = ['<?xml version="1.0" encoding="UTF-8"?>', '<TrackMate version="7.11.1">', "  <Log>log</Log>",
+           '  <Model spatialunits="micrometer" timeunits="second">', "    <FeatureDeclarations>", "      <SpotFeatures>"]
+    for name, isint, dim in sf:
+        out.append(f'        <Feature feature="{name}" name="{name.title()}" shortname="{name[:4]}" dimension="{dim}" isint="{isint}" />')
+    out += ["      </SpotFeatures>", "      <EdgeFeatures>",
+            '        <Feature feature="SPOT_SOURCE_ID" name="Source" shortname="Src" dimension="NONE" isint="true" />',
+            '        <Feature feature="SPOT_TARGET_ID" name="Target" shortname="Tgt" dimension="NONE" isint="true" />',
+            '        <Feature feature="LINK_COST" name="Cost" shortname="Cost" dimension="COST" isint="false" />',
+            "      </EdgeFeatures>", "      <TrackFeatures>",
+            '        <Feature feature="TRACK_ID" name="Track ID" shortname="ID" dimension="NONE" isint="true" />',
+            '        <Feature feature="TRACK_INDEX" name="Track index" shortname="Idx" dimension="NONE" isint="true" />',
+            "      </TrackFeatures>", "    </FeatureDeclarations>", f'    <AllSpots nspots="{n}">']
+    for i in range(n):
+        sid = 10 + i + variant * 100
+        a = (f'ID="{sid}" name="ID{sid}" QUALITY="{1.5 + i}" POSITION_X="{float(i)}" POSITION_Y="{2.0 * i}" POSITION_Z="0.0" '
+             f'POSITION_T="{float(i)}" FRAME="{i}" RADIUS="1.0" VISIBILITY="1"')
+        if extra:
+            a += f' MEAN_INTENSITY="{10.5 + i}"'
+        out += [f'      <SpotsInFrame frame="{i}">', f"        <Spot {a} />", "      </SpotsInFrame>"]
+    out += ["    </AllSpots>", "    <AllTracks>", '      <Track name="Track_0" TRACK_ID="0" TRACK_INDEX="0">']
+    for i in range(n - 1):
+        s, t = 10 + i + variant * 100, 11 + i + variant * 100
+        out.append(f'        <Edge SPOT_SOURCE_ID="{s}" SPOT_TARGET_ID="{t}" LINK_COST="{0.5 + i}" />')
+    out += ["      </Track>", "    </AllTracks>", "    <FilteredTracks>", '      <TrackID TRACK_ID="0" />',
+            "    </FilteredTracks>", "  </Model>", "  <Settings>",
+            '    <ImageData filename="img.tif" folder="/data/x" width="10" height="10" nslices="1" nframes="5" '
+            'pixelwidth="1.0" pixelheight="1.0" voxeldepth="1.0" timeinterval="1.0" />',
+            "  </Settings>", '  <GUIState state="ConfigureViews" />', "</TrackMate>"]
+    p = os.path.join(root, f"tm{variant}.xml")
+    with open(p, "w") as fh:
+        fh.write("\n".join(out) + "\n")
+    return p
+
+
+CONVERTERS = ("ctc", "trackmate")
+
+
+def do_convert(entry: str, store, variant: int, fmt: int, overwrite: bool, workdir: str):
+    """run a converter on a tiny synthetic input; `store` must be a Path ending in .geff"""
+    from geff.convert import from_ctc_to_geff, from_trackmate_xml_to_geff
+
+    if entry == "ctc":
+        return from_ctc_to_geff(Path(make_ctc(workdir, variant)), Path(store), overwrite=overwrite, zarr_format=fmt)
+    return from_trackmate_xml_to_geff(Path(make_trackmate(workdir, variant)), Path(store), overwrite=overwrite,
+                                      zarr_format=fmt)
